@@ -24,6 +24,9 @@ type Script struct {
 	Snapshot string  `json:"snapshot"` // "full" (decoded state every block) | "digest" (app hash, tx results, store digests only)
 	// OnDisk: directory for goleveldb databases ("" = MemDB). Needed for restart steps in separate processes.
 	OnDisk string `json:"on_disk,omitempty"`
+	// PerTx: additionally emit a full snapshot after BeginBlock ("begin") and after every DeliverTx ("tx") of blocks >= PerTxFrom.
+	PerTx     bool  `json:"per_tx,omitempty"`
+	PerTxFrom int64 `json:"per_tx_from,omitempty"`
 }
 
 type Step struct {
@@ -49,7 +52,8 @@ type MidOp struct {
 
 // Record is one line of the child's trace.
 type Record struct {
-	Kind     string    `json:"kind"` // init | block | offchain | export | restart | done
+	Kind     string    `json:"kind"` // init | begin | tx | block | offchain | export | restart | done
+	TxIndex  int       `json:"txi,omitempty"`
 	Snap     *Snapshot `json:"snap,omitempty"`
 	Off      *OffRes   `json:"off,omitempty"`
 	Export   string    `json:"export,omitempty"`
@@ -77,10 +81,12 @@ func dig(v interface{}) string {
 
 // Executor runs a script against a Node and emits records.
 type Executor struct {
-	N     *Node
-	Out   func(Record)
-	Audit bool // compare raw store digests before/after every off-chain op
-	Full  bool
+	N         *Node
+	Out       func(Record)
+	Audit     bool // compare raw store digests before/after every off-chain op
+	Full      bool
+	PerTx     bool
+	PerTxFrom int64
 }
 
 func (e *Executor) offchain(op MidOp) {
@@ -213,10 +219,25 @@ func (e *Executor) RunBlockStep(st Step) {
 	trans := n.TransientCounts()
 	n.BeginBlock(*st.Block)
 	proposer := hex.EncodeToString(n.cur.block.Header.ProposerAddress)
+	perTx := e.PerTx && n.Height+1 >= e.PerTxFrom
+	midSnap := func() *Snapshot { // state is read from the working stores: the deliver context writes straight into them
+		n.Height++
+		s := n.Snapshot()
+		n.Height--
+		return s
+	}
+	if perTx {
+		e.Out(Record{Kind: "begin", Snap: midSnap()})
+	}
 	var txs []TxRes
 	for i := 0; n.Remaining() > 0; i++ {
 		at(i)
 		txs = append(txs, n.DeliverNext())
+		if perTx {
+			sn := midSnap()
+			sn.Txs = txs[len(txs)-1:]
+			e.Out(Record{Kind: "tx", TxIndex: i, Snap: sn})
+		}
 	}
 	at(len(st.Block.Txs))
 	upd, _ := n.EndAndCommit()
@@ -272,7 +293,7 @@ func RunScript(sc Script, out func(Record), audit bool) int {
 		cfg.AppDB, cfg.BlockDB, cfg.TxDB = openDiskDBs(sc.OnDisk)
 	}
 	n := NewNode(cfg)
-	ex := &Executor{N: n, Out: out, Audit: audit, Full: sc.Snapshot != "digest"}
+	ex := &Executor{N: n, Out: out, Audit: audit, Full: sc.Snapshot != "digest", PerTx: sc.PerTx, PerTxFrom: sc.PerTxFrom}
 	if n.App.LastBlockHeight() == 0 {
 		vals := n.InitChain()
 		var iv []ValUpd
